@@ -168,8 +168,10 @@ type gMethod struct {
 	paths        []*gPath
 	failures     int // paths ending in a nil return / recorded error (not compared)
 	tolerantOnly int // paths taken only when the tolerant-mode flag is set (not compared: strict mode records an error there)
-	dropped      int // paths cut by the unrolling bound
-	issues       []string
+	// the tolerant-only paths that return the node (kept for the rules about what tolerant mode accepts)
+	tolerantPaths []*gPath
+	dropped       int // paths cut by the unrolling bound
+	issues        []string
 }
 
 type gx struct {
@@ -259,6 +261,9 @@ func (x *gx) finish(s *gState) {
 	}
 	if s.tolerant {
 		x.gm.tolerantOnly++
+		if len(s.ret) > 0 && s.ret[0].kind == vNode {
+			x.gm.tolerantPaths = append(x.gm.tolerantPaths, &gPath{events: s.events, fields: s.fields, lists: s.lists, structs: s.structs, notes: s.notes})
+		}
 		return
 	}
 	if s.ret[0].kind != vNode {
